@@ -78,10 +78,26 @@ def _coarse_keys(e):
     return ks
 
 
+def _is_loop(e):
+    """Does the last step of the exported path leave the abstract state as it is (a refused attempt; an admitted one that does
+    nothing to the identity)?"""
+    a, b = dict(e["pre"]), dict(e["path"][-1]["post"])
+    a["vtx"], b["vtx"] = sorted(a["vtx"]), sorted(b["vtx"])
+    return a == b
+
+
+def _pending(s):
+    return s["psw"] or s["sw"] != "no" or s["dd"] == "pend" or s["pen"] == "delayed"
+
+
 def _select(ctx, exports, rnd, quick):
     """One path per stratum (the cheapest the model printed).  In every run: every attempt kind refused and admitted, every
     block-level step, every epoch outcome.  The quick tier then takes the coarse strata in seeded order up to a block budget, so
-    that different seeds realise different parts of the cover; the thorough tier takes every stratum the model exported."""
+    that different seeds realise different parts of the cover; the thorough tier takes every stratum the model exported.
+    Paths that reach the same state by the same prefix and end in a step that leaves the abstract state alone (a refused attempt,
+    an admitted Send / Burn ...) are then run as ONE history: prefix, all those steps one after the other (each a self-loop of the
+    model, so the concatenation is a path of the model and every per-step prediction stays what TLC printed), and - when there is
+    one - a state-changing last step of another chosen path with that prefix."""
     uniq = {}
     for e in exports:
         uniq.setdefault(json.dumps(e["path"], sort_keys=True) + e["init"], e)
@@ -95,25 +111,51 @@ def _select(ctx, exports, rnd, quick):
             best.setdefault(k, e)
     rest = sorted(best)
     rnd.shuffle(rest)
-    budget = 2600 if quick else 10 ** 9
-    chosen, covered, blocks = {}, set(), 0
+    budget = 2300 if quick else 10 ** 9
+    chosen, covered, paid, blocks = {}, set(), set(), 0
 
     def take(e, force):
         nonlocal blocks
         pid = json.dumps(e["path"], sort_keys=True) + e["init"]
         if pid not in chosen:
-            c = _cost(e["path"])
+            pre = (e["init"], json.dumps(e["path"][:-1], sort_keys=True))
+            c = _cost(e["path"][-1:]) if (_is_loop(e) and pre in paid) else _cost(e["path"])
             if blocks + c > budget and not force:
                 return
             chosen[pid] = e
             blocks += c
+            if _is_loop(e):
+                paid.add(pre)
         covered.update(keyfn(e))
     for m in sorted(must, key=str):
         take(must[m], True)
     for k in rest:
         if k not in covered:
             take(best[k], False)
-    return list(chosen.values()), len(best), len(covered & set(best))
+    # merge
+    groups = collections.OrderedDict()
+    for pid in sorted(chosen):
+        e = chosen[pid]
+        g = groups.setdefault((e["init"], json.dumps(e["path"][:-1], sort_keys=True)), {"loops": [], "others": [], "prefix": e["path"][:-1], "init": e["init"], "pre": e["pre"]})
+        g["loops" if _is_loop(e) else "others"].append(e)
+    runs = []
+    for g in groups.values():
+        size = 5 if _pending(g["pre"]) else 24        # a pending switch must meet its identity-update block within the switch range
+        if g["pre"]["per"] == 4:
+            # the sixth block after the start of the after-long period that carries no ceremony transaction ends the epoch
+            k = 0
+            for st in g["prefix"][::-1]:
+                if st["n"] == "NextPeriod":
+                    break
+                k += 1
+            size = max(1, 4 - k)
+        loops, others = g["loops"], list(g["others"])
+        for i in range(0, len(loops), size):
+            steps = [e["path"][-1] for e in loops[i:i + size]]
+            tail = [others.pop()["path"][-1]] if others else []
+            runs.append({"init": g["init"], "path": g["prefix"] + steps + tail})
+        runs += [{"init": e["init"], "path": e["path"]} for e in others]
+    return runs, len(best), len(covered & set(best)), len(chosen)
 
 
 def _shards(ctx, drv, jobs, timeout):
@@ -245,13 +287,13 @@ def run(ctx, quick):
     model_keys = set()
     for e in r.exports:
         model_keys |= set(e["keys"])
-    paths, nstrata, ncovered = _select(ctx, r.exports, rnd, quick)
+    paths, nstrata, ncovered, nchosen = _select(ctx, r.exports, rnd, quick)
     model_ops = collections.Counter((e["path"][-1]["n"], e["path"][-1]["block"]) for e in r.exports)
     for op in TX_OPS:
         if (op not in ALWAYS_IN_BLOCK and not model_ops.get((op, False))) or (op not in NEVER_ADMITTED and not model_ops.get((op, True))):
             raise vlib.CheckError("the model never %s a %s attempt (vacuous bounds)" % ("refused" if not model_ops.get((op, False)) else "admitted", op))
-    ctx.log("model %s: %d generated / %d distinct states, %d strata of transitions exported; %d strata targeted, %d paths chosen (%d blocks est.)" % (
-        cfg, r.generated, r.distinct, len(model_keys), nstrata, len(paths), sum(_cost(e["path"]) for e in paths)))
+    ctx.log("model %s: %d generated / %d distinct states, %d strata of transitions exported; %d strata targeted, %d covered by %d paths, run as %d histories (%d blocks est.)" % (
+        cfg, r.generated, r.distinct, len(model_keys), nstrata, ncovered, nchosen, len(paths), sum(_cost(e["path"]) for e in paths)))
 
     # 2. the paths on real replicas (sharded: one virtual clock per process)
     rnd.shuffle(paths)
@@ -290,7 +332,7 @@ def run(ctx, quick):
     def job(j):
         i, (kind, spec, cfgf, t) = j
         time.sleep(0.25 * i)         # vlib.tlc names its scratch directory from a counter and the clock
-        if kind == "life":
+        if kind in ("life", "selftest"):
             return _validate_life(ctx, t)
         return vlib.trace_validate(ctx, spec, cfgf, t, timeout=3000)
     # the ledger specification does exact arithmetic over the whole ledger: one run per shard; the light ones take all shards at once
@@ -302,8 +344,13 @@ def run(ctx, quick):
     vjobs = [("other", "Trace_Ledger.tla", "Trace_Ledger.cfg", t) for t in files]
     vjobs += [("life", "Trace_Lifecycle.tla", None, allt)]
     vjobs += [("other", s, c, allt) for s, c in OTHER_SPECS[1:]]
+    st_files = _selftest_files(ctx, files[0])
+    vjobs += [("selftest", "Trace_Lifecycle.tla", None, t) for t in st_files]
     with concurrent.futures.ThreadPoolExecutor(max_workers=6) as ex:
         results = list(ex.map(job, list(enumerate(vjobs))))
+    st_results = [res for (kind, _, _, _), res in zip(vjobs, results) if kind == "selftest"]
+    results = [res for (kind, _, _, _), res in zip(vjobs, results) if kind != "selftest"]
+    vjobs = [j for j in vjobs if j[0] != "selftest"]
     drift = []
     ok_all = True
     for (kind, spec, cfgf, t), res in zip(vjobs, results):
@@ -346,7 +393,12 @@ def run(ctx, quick):
 
     # 5. binding self-test: a recorded good trace with the focus identity's status corrupted / one block removed must be rejected
     if ok_all:
-        _selftest(ctx, files[0])
+        if not st_results[0][0]:
+            raise vlib.CheckError("binding self-test: the recorded prefix was rejected although the whole trace was accepted")
+        for name, res in zip(("status", "removed"), st_results[1:]):
+            if res[0]:
+                raise vlib.CheckError("binding self-test failed: the corrupted lifecycle trace (%s) was accepted" % name)
+        ctx.log("binding self-test: corrupted lifecycle traces rejected (%s)" % ", ".join(sorted({c for res in st_results[1:] for _, c in res[1]})))
     ctx.log("lifecycle: %d attempts (%d admitted), %d transitions realised, %d drift" % (tot.get("attempts", 0), tot.get("included", 0), len(trans), len(drift)))
 
     by_kind = collections.Counter(d["kind"] for d in drift)
@@ -356,14 +408,14 @@ def run(ctx, quick):
     types_seen = sorted({k.split("|")[0] for k in per_cell})
     return {
         "life_states": r.distinct, "life_transitions": r.generated, "life_model_cfg": cfg,
-        "life_model_strata": len(model_keys), "life_strata_targeted": nstrata,
+        "life_model_strata": len(model_keys), "life_strata_targeted": nstrata, "life_strata_chosen": ncovered, "life_paths_chosen": nchosen,
         "life_traces_validated_against_impl": tot.get("histories", 0), "life_blocks": tot.get("blocks", 0),
         "life_attempts": tot.get("attempts", 0), "life_attempts_admitted": tot.get("included", 0),
         "life_attempts_refused": tot.get("attempts", 0) - tot.get("included", 0),
         "life_paths_unrealised": tot.get("unrealised", 0), "life_paths_stopped_by_a_refused_block": tot.get("refused", 0),
         "life_transitions_realised": len(trans),
         "life_cells_tx_status_period": len(per_cell), "life_tx_types": types_seen,
-        "life_per_cell": {k: per_cell[k] for k in sorted(per_cell)} if not quick else {k: per_cell[k] for k in sorted(per_cell)[:60]},
+        "life_per_cell": {k: per_cell[k] for k in sorted(per_cell)},
         "life_per_attempt": {"%s|%s" % k: v for k, v in sorted(ops.items())},
         "life_block_level_steps": dict(steps), "life_epoch_outcomes": dict(outcomes),
         "life_drift": len(drift), "life_drift_by_kind": dict(by_kind), "life_drift_list": drift[:40],
@@ -375,19 +427,14 @@ def run(ctx, quick):
     }
 
 
-def _selftest(ctx, trace):
+def _selftest_files(ctx, trace):
+    """Binding self-test material: a recorded prefix (whole paths) as it is, with the focus identity's status corrupted in one
+    block, and with the block of an admitted status-changing attempt removed."""
     rows = []
     for row in vlib.read_ndjson(trace):
         if row.get("ev") == "Genesis" and len(rows) > 250:
             break
         rows.append(row)
-    good = ctx.path("selftest", "life_good.ndjson")
-    vlib.write_ndjson(good, rows)
-    ok, broken, dr, _ = _validate_life(ctx, good)
-    if not ok:
-        return
-    base = len(dr)
-    # (1) the ledger shows another status for the focus identity than the node committed
     bad1 = json.loads(json.dumps(rows))
     done = False
     for row in bad1:
@@ -396,7 +443,6 @@ def _selftest(ctx, trace):
             x["status"] = 3 if x["status"] != 3 else 8
             done = True
             break
-    # (2) the block that carried an admitted status-changing attempt is missing (the change then shows up without its cause)
     bad2 = json.loads(json.dumps(rows))
     idx = next((i for i, row in enumerate(bad2[:-1]) if row.get("ev") == "Block" and (row.get("lstep") or {}).get("kind") == "attempt" and row.get("txs")
                 and row["lstep"]["op"] in ("Kill", "ActivateSelf", "InviteX", "KillInviteeX", "KillDelegatorX", "ActivateOther")
@@ -404,10 +450,9 @@ def _selftest(ctx, trace):
     if not done or idx is None:
         raise vlib.CheckError("self-test could not build corrupted lifecycle traces")
     del bad2[idx]
-    for name, bad in (("status", bad1), ("removed", bad2)):
-        f = ctx.path("selftest", "life_bad_%s.ndjson" % name)
-        vlib.write_ndjson(f, bad)
-        ok2, broken2, dr2, _ = _validate_life(ctx, f)
-        if ok2:
-            raise vlib.CheckError("binding self-test failed: the corrupted lifecycle trace (%s) was accepted" % name)
-    ctx.log("binding self-test: corrupted lifecycle traces rejected")
+    res = []
+    for name, rws in (("good", rows), ("bad_status", bad1), ("bad_removed", bad2)):
+        f = ctx.path("selftest", "life_%s.ndjson" % name)
+        vlib.write_ndjson(f, rws)
+        res.append(f)
+    return res
